@@ -773,27 +773,109 @@ def tuning_chain_env(prog):
     return ci, env
 
 
+# Evaluation route of C03.g.  Where the body of a derived constant is outside the vocabulary of the polynomial normal
+# form (a loop, sum()/pow()/ldexp(), a table of names read by getattr, a getter made by functools.partial ...), the
+# class is *evaluated* (rules/_kit_c04.ClassEval through _kit_c03.PointEval: exact rational arithmetic, Python's lookup
+# rules) on instances of synthetic subclasses that set the base parameters to chosen values, and the number is compared
+# with the number the RFC formula gives.
+#
+# Why agreement on the grid below is taken for identity: the RFC formulas are polynomials of degree 1 in each of
+# ACK_TIMEOUT, ACK_RANDOM_FACTOR, MAX_LATENCY and exponential polynomials in MAX_RETRANSMIT (a + b*2^N).  A candidate
+# that is, for every fixed N, a polynomial of degree <= 2 in each of T, F, L and agrees with the reference on the
+# 3 x 3 x 3 tensor grid of (T, F, L) values is that polynomial (tensor-product interpolation is unique).  As a function
+# of N, a candidate of the form sum_j c_j * N^(k_j) * b_j^N (b_j > 0) with at most 7 terms in the difference to the
+# reference (1, N, N^2, 2^N, N*2^N, 3^N, 4^N ...) that vanishes at the 7 points N = 0..6 vanishes identically (such
+# families are Chebyshev systems: a non-zero member has fewer real zeros than terms).  Every arithmetic spelling of
+# a "sum of doubling timeouts" -- closed form, sum(), loop, ldexp, shift -- is in that family, and so are the realistic
+# mistakes (exponent off by one, factor missing / squared, another base, a constant).  Code that branches on the
+# parameter values can of course agree on any finite grid and differ elsewhere; the grid contains the defaults, both
+# ends of the practical range of MAX_RETRANSMIT and the degenerate N = 0, and that is where this clause stops.
+# The values are dyadic rationals (exactly representable floats), pairwise different across parameters.
+# A violation is reported only with a concrete point at which the two numbers differ.
+GRID = [
+    ("ACK_TIMEOUT", [Fraction(2), Fraction(7, 2), Fraction(5)]),
+    ("ACK_RANDOM_FACTOR", [Fraction(3, 2), Fraction(5, 4), Fraction(3)]),
+    ("MAX_RETRANSMIT", [Fraction(n) for n in (4, 0, 1, 2, 3, 5, 6)]),
+    ("MAX_LATENCY", [Fraction(100), Fraction(13), Fraction(33, 2)]),
+]
+LETTERS = {"T": "ACK_TIMEOUT", "F": "ACK_RANDOM_FACTOR", "N": "MAX_RETRANSMIT", "L": "MAX_LATENCY"}
+TUNING_CLS = "numbers.constants.TransportTuning"
+
+
+def _evaluated_difference(ctx, ci, name, ref, state):
+    """(point, got, want) of the first grid point at which TransportTuning.<name> differs from the reference formula,
+    None when it agrees on the whole grid; K.EvalRefused when the evaluator cannot compute it."""
+    if "pe" not in state:
+        state["pe"] = K.PointEval(ctx.prog, ci.qn)
+        state["points"] = K.parameter_grid(GRID)
+    return K.first_difference(state["pe"], name, ref, LETTERS, state["points"])
+
+
 @R.clause("C03.g", "derived TransportTuning spans equal the RFC 7252 section 4.8.2 formulas; defaults 2 / 1.5 / 4 / 100")
 def g(ctx):
     ci, env = tuning_chain_env(ctx.prog)
     rename = {"self.ACK_TIMEOUT": "T", "self.ACK_RANDOM_FACTOR": "F", "self.MAX_RETRANSMIT": "N", "self.MAX_LATENCY": "L"}
+    state = {}
+    refused = []
     for name, ref in REF.items():
-        ctx.need("self." + name in env, "TransportTuning.%s is not a single-return property" % name)
         fi = ci.methods.get(name)
-        try:
-            got = Normalizer(rename=rename, chain_env=env).poly(env["self." + name])
-        except norm.NormError as ex:
-            raise AnalysisError("TransportTuning.%s: %s" % (name, ex))
+        node = fi.node if fi is not None else None
+        desc = "TransportTuning.%s == %s" % (name, ref)
+        construct = "TransportTuning.%s" % name
+        # (1) polynomial normal form of a single-expression property (helpers and locals substituted)
+        got = None
+        if "self." + name in env:
+            try:
+                got = Normalizer(rename=rename, chain_env=env).poly(env["self." + name])
+            except norm.NormError:
+                got = None
         want = Normalizer().poly(ast.parse(ref, mode="eval").body)
-        ctx.ob("TransportTuning.%s == %s" % (name, ref), got == want, fi, fi.node if fi is not None else None, detail="normal form %r" % got, construct="TransportTuning.%s" % name)
+        same_nf = got is not None and got == want
+        # (2) evaluation on the parameter grid: decides what (1) cannot express, and supplies the concrete point for
+        # everything that is reported
+        try:
+            diff = _evaluated_difference(ctx, ci, name, ref, state)
+            why = None
+        except K.EvalRefused as ex:
+            diff, why = None, str(ex)
+        if same_nf:
+            if diff is not None:
+                # cannot happen unless one of the two routes is wrong about Python: say so rather than pick one
+                refused.append("TransportTuning.%s: the normal form equals the reference, but at %s it evaluates to %s (reference %s)" % (
+                    name, K.show_point(diff[0]), K.show_number(diff[1]), K.show_number(diff[2])))
+                continue
+            ctx.ob(desc, True, fi, node, detail="normal form %r" % got, construct=construct)
+        elif why is not None:
+            refused.append("TransportTuning.%s is outside the vocabulary of the normal form%s and cannot be evaluated: %s" % (
+                name, "" if got is None else " (or differs: %r)" % got, why))
+        elif diff is None:
+            ctx.ob(desc, True, fi, node, detail="equal to the reference at all %d parameter points (evaluated)" % len(state["points"]), construct=construct)
+        else:
+            p, v, w = diff
+            ctx.ob(desc, False, fi, node, construct=construct,
+                   detail="at %s it is %s, the RFC formula gives %s%s" % (K.show_point(p), K.show_number(v), K.show_number(w), "" if got is None else "; normal form %r" % got))
     for name, val in DEFAULTS.items():
         ctx.need(name in ci.attrs, "TransportTuning.%s default missing" % name)
         try:
             v = norm.consteval(ci.attrs[name])
         except norm.NormError:
-            v = None
-        ok = v is not None and not isinstance(v, (str, bytes, tuple)) and Fraction(v) == Fraction(val)
-        ctx.ob("default %s == %s" % (name, val), ok, None, None, construct="TransportTuning.%s = %s" % (name, ast.unparse(ci.attrs[name])), detail="value %r" % v)
+            # not a literal (a module constant, float(2), 3 / 2 ...): the value the class attribute evaluates to
+            try:
+                if "pe" not in state:
+                    state["pe"] = K.PointEval(ctx.prog, ci.qn)
+                v = state["pe"].value(name, {})
+            except K.EvalRefused as ex:
+                refused.append("default TransportTuning.%s = %s cannot be evaluated: %s" % (name, ast.unparse(ci.attrs[name]), ex))
+                continue
+        try:
+            ok = isinstance(v, (int, float, Fraction)) and Fraction(v) == Fraction(val)
+        except (ValueError, OverflowError):
+            ok = False  # nan / inf
+        ctx.ob("default %s == %s" % (name, val), ok, None, None, construct="TransportTuning.%s = %s" % (name, ast.unparse(ci.attrs[name])), detail="value %s" % (K.show_number(v) if isinstance(v, Fraction) else repr(v)))
+    if "pe" in state:
+        ctx.note("evaluation route (parameter grid) read %s" % ", ".join(sorted(state["pe"].deps)))
+    if refused:
+        raise AnalysisError("; ".join(refused))
 
 
 def _tuning_base_ok(prog, fi, base, mod_funcs, depth=3):
@@ -1316,3 +1398,15 @@ R.seed("C03.i", F_MM, "        key = (message.remote, message.mid)\n\n        if
 R.seed("C03.j", "aiocoap/tokenmanager.py", "        if not isinstance(exception, error.NetworkError):\n            cause = exception", "        if not isinstance(exception, error.NetworkError) or isinstance(\n            exception, error.TimeoutError\n        ):\n            cause = exception", "timeouts are flattened into a plain NetworkError")
 R.seed("C03.j", "aiocoap/tokenmanager.py", "        if not isinstance(exception, error.NetworkError):\n            cause = exception", "        if isinstance(exception, Exception):\n            cause = exception", "everything is wrapped: the request fails with a plain NetworkError, not a timeout")
 R.seed("C03.j", "aiocoap/tokenmanager.py", "        if not isinstance(exception, error.NetworkError):\n            cause = exception", "        if not isinstance(exception, error.RemoteServerShutdown):\n            cause = exception", "only one sibling class is let through")
+
+# seventh pass: C03.g evaluation route (bodies outside the polynomial normal form are decided by evaluating the class on
+# the parameter grid; each of these is reported with the parameter point at which the value leaves the RFC formula)
+F_CONST = "aiocoap/numbers/constants.py"
+_SPAN_RET = "        return self.ACK_TIMEOUT * (2**self.MAX_RETRANSMIT - 1) * self.ACK_RANDOM_FACTOR\n"
+R.seed("C03.g", F_CONST, _SPAN_RET, "        return self.ACK_TIMEOUT * sum(2**i for i in range(self.MAX_RETRANSMIT + 1)) * self.ACK_RANDOM_FACTOR\n", "sum of the doubling timeouts with one term too many (MAX_TRANSMIT_SPAN becomes MAX_TRANSMIT_WAIT)")
+R.seed("C03.g", F_CONST, _SPAN_RET, "        total, timeout = 0, self.ACK_TIMEOUT\n        for _ in range(self.MAX_RETRANSMIT):\n            total += timeout\n            timeout *= 2\n        return total\n", "doubling loop that forgets ACK_RANDOM_FACTOR")
+R.seed("C03.g", F_CONST, _SPAN_RET, "        return 45.0\n", "the RFC's default value as a literal: right for the default parameters only")
+R.seed("C03.g", F_CONST, _SPAN_RET, "        return TransportTuning.ACK_TIMEOUT * sum(2**i for i in range(self.MAX_RETRANSMIT)) * self.ACK_RANDOM_FACTOR\n", "reads the base class's ACK_TIMEOUT: a subclass that tunes ACK_TIMEOUT keeps the default span")
+R.seed("C03.g", F_CONST, "        return self.MAX_TRANSMIT_SPAN + self.MAX_RTT\n", "        return sum(getattr(self, part) for part in (\"MAX_TRANSMIT_WAIT\", \"MAX_RTT\"))\n", "EXCHANGE_LIFETIME summed over a table of names that lists MAX_TRANSMIT_WAIT")
+R.seed("C03.g", F_CONST, "        return self.ACK_TIMEOUT\n", "        return getattr(self, \"EMPTY_ACK_DELAY\")\n", "PROCESSING_DELAY taken from the wrong parameter")
+R.seed("C03.g", F_CONST, "            * (2 ** (self.MAX_RETRANSMIT + 1) - 1)\n", "            * (pow(2, self.MAX_RETRANSMIT) - 1)\n", "MAX_TRANSMIT_WAIT with the exponent of MAX_TRANSMIT_SPAN, spelled with pow()")
